@@ -1,4 +1,4 @@
-import CR4
+import IncrVerif.Proofs.BindH69
 /-!
 # Binds, fragment F1, `lhsRelink`, part 5: `lhsRelink` keeps the structural invariant — `relink_spec1 : RelinkSpec1 env`
 
